@@ -139,6 +139,27 @@ def a_activate_compromise_destroy(w, h):
         _destroy(w, h, u, o)
 
 
+def a_use_every_way_then_destroy(w, h):
+    """The newest key is activated and USED in every indirect way first (as wrapping key, as
+    derivation base, for Encrypt and MAC, read and listed) - whatever the server remembers of an
+    object from using it must die with the object - then revoked and destroyed."""
+    u = _newest(h)
+    if not u or h.live[u]['kind'] != 'sym':
+        return
+    o = h.live[u]['owner']
+    w.do((1, 2), W.p_activate(u), user=o)
+    others = [x for x in h.live if x != u and h.live[x]['owner'] == o and h.live[x]['kind'] == 'sym']
+    if others:
+        w.do((1, 2), W.p_get(others[0], wrapping_spec=W.wrapping_spec(u)), user=o)
+    w.do((1, 2), W.p_encrypt(u, iv=b'\x00' * 16), user=o)
+    w.do((1, 2), W.p_mac(u), user=o)
+    w.do((1, 2), W.p_get(u), user=o)
+    w.do((1, 2), W.p_get_attributes(u), user=o)
+    w.do((2, 0), W.p_get_attribute_list(u), user=o)
+    w.do((1, 2), W.p_revoke(u), user=o)
+    _destroy(w, h, u, o)
+
+
 def a_destroy_dead_again(w, h):
     if h.dead:
         r = w.do((1, 2), W.p_destroy(h.dead[-1]), user='alice')
@@ -162,6 +183,7 @@ ACTIONS = {
     'destroy_newest_owner': a_destroy_newest_owner, 'destroy_oldest_owner': a_destroy_oldest_owner,
     'destroy_newest_other': a_destroy_newest_other,
     'activate_compromise_destroy': a_activate_compromise_destroy,
+    'use_every_way_then_destroy': a_use_every_way_then_destroy,
     'destroy_dead_again': a_destroy_dead_again,
     'restart_clean': a_restart_clean, 'restart_kill': a_restart_kill,
 }
